@@ -163,4 +163,30 @@ theorem tie_optionalAssignments : optionalAssignments = ["optional = true", "opt
 /-- `processNamedField` under WithFromArray takes the first element only of a non-nil value for a non-slice field -/
 theorem tie_fromArrayGuard : fromArrayGuard = ["if u.opts.fromArray && mapValue != nil"] := by decide
 
+/-! ### the unmarshalers of the HTTP front end are the configurations the model and the harness run -/
+
+/-- form: key `form`, WithStringValues + WithOpaqueKeys + WithFromArray (`Cfg` with fromString, fromArray) -/
+theorem tie_formUnmarshaler :
+    formUnmarshalerCall = ["mapping.NewUnmarshaler", "formKey", "mapping.WithStringValues()", "mapping.WithOpaqueKeys()",
+      "mapping.WithFromArray()"] := by decide
+
+/-- path: key `path`, WithStringValues + WithOpaqueKeys (`Cfg` with fromString) -/
+theorem tie_pathUnmarshaler :
+    pathUnmarshalerCall = ["mapping.NewUnmarshaler", "pathKey", "mapping.WithStringValues()", "mapping.WithOpaqueKeys()"] := by
+  decide
+
+/-- header: key `header`, WithStringValues + canonical MIME keys (`Cfg` with fromString, canonical) -/
+theorem tie_headerUnmarshaler :
+    headerUnmarshalerCall = ["mapping.NewUnmarshaler", "headerKey", "mapping.WithStringValues()",
+      "mapping.WithCanonicalKeyFunc(textproto.CanonicalMIMEHeaderKey)"] := by decide
+
+theorem tie_jsonUnmarshaler : jsonUnmarshalerCall = ["NewUnmarshaler", "jsonTagKey"] := by decide
+
+/-- the dependency key keeps its `!` and is canonicalised behind it (`canonDep false`) -/
+theorem tie_canonicalDep :
+    canonicalDepExpr = ["canonicalDep(options.OptionalDep, u.opts.canonicalKey)"]
+    ∧ canonicalDepStmts =
+        ["if len(dep) > 0 && dep[0] == notSymbol => return string(notSymbol) + canonicalKey(dep[1:])",
+         "return canonicalKey(dep)"] := by decide
+
 end GoZero.C08.Tie
